@@ -510,6 +510,9 @@ func c15E2ERun(r *vkit.Run, one func(fn func())) {
 					}
 					logs = append(logs, s)
 				}
+				if n == 3 && mo%2 == 1 {
+					logs[1].Entries = nil // a container that logged nothing
+				}
 				for _, f := range forms {
 					in := c15E2EInput{Args: f.args, Timestamp: f.ts, Container: f.ct, Color: f.co, Logs: logs}
 					one(func() { c15E2ECheck(r, in) })
